@@ -79,6 +79,9 @@ from stix2.datastore.filters import Filter
 from stix2.datastore.filesystem import FileSystemSink, FileSystemSource, FileSystemStore
 from stix2.datastore.memory import MemorySink, MemorySource, MemoryStore
 
+if os.environ.get("TZ"):
+    import time as _time
+    _time.tzset()
 WORKBENCH = "workbench" in sys.argv[1:]
 if WORKBENCH:
     # importing the workbench replaces the 2.1 SDO classes of the registry by factory functions:
@@ -201,11 +204,12 @@ def single(res, inp, with_class=True):
 
 
 BUNDLE_ID = "bundle--5d0092c5-5f74-4287-9642-33f4c354e56d"
+BUNDLE_ID_V1 = "bundle--5d0092c5-5f74-1287-9642-33f4c354e56d"      # a version-1 UUID: 2.1 admits it, 2.0 does not
 
 
-def bundle_of(d):
+def bundle_of(d, v1=False):
     """the bundle a FileSystemSink(bundlify=True) would have written around d"""
-    b = {"type": "bundle", "id": BUNDLE_ID}
+    b = {"type": "bundle", "id": BUNDLE_ID_V1 if v1 else BUNDLE_ID}
     if "spec_version" not in d:
         b["spec_version"] = "2.0"
     b["objects"] = [d]
@@ -275,16 +279,37 @@ def run_entry(name, cfg, d):
     oid = d.get("id") if isinstance(d, dict) else None
     io_own = bool(cfg.get("interoperability", False))
 
-    if name in ("parsing.parse", "parsing.dict_to_stix2", "environment.Environment.parse"):
+    form = cfg.get("form")          # how the same content / the same arguments are handed over
+    if name in ("parsing.parse", "parsing.dict_to_stix2", "environment.Environment.parse", "parsing.parse_observable"):
+        obs = name == "parsing.parse_observable"
         fn = {"parsing.parse": stix2.parse, "parsing.dict_to_stix2": parsing.dict_to_stix2,
-              "environment.Environment.parse": None}[name]
+              "environment.Environment.parse": None, "parsing.parse_observable": stix2.parse_observable}[name]
         if fn is None:
             fn = stix2.Environment().parse
         k = kw(cfg, ("allow_custom", "interoperability", "version"))
-        return guard(lambda: ok(fn(d, **k), d), d), ["parse", own_allow(cfg, stix2.parse), io_own]
-    if name == "parsing.parse_observable":
-        k = kw(cfg, ("allow_custom", "interoperability", "version"))
-        return guard(lambda: ok(stix2.parse_observable(d, **k), d), d), ["parse_observable", own_allow(cfg, stix2.parse_observable), io_own]
+        own = ["parse_observable" if obs else "parse", own_allow(cfg, stix2.parse_observable if obs else stix2.parse), io_own]
+
+        def f():
+            data = d
+            if form == "str":
+                data = json.dumps(d)
+            elif form == "bytes":
+                data = json.dumps(d).encode("utf-8")
+            elif form == "file":
+                data = io.StringIO(json.dumps(d))
+            elif form == "object":
+                # the same content as a library object (built with the version the library detects)
+                try:
+                    data = (stix2.parse_observable if obs else stix2.parse)(d, allow_custom=True)
+                except Exception:  # noqa: BLE001
+                    return ["skip", "not buildable as an object"]
+                if not isinstance(data, _STIXBase):
+                    return ["skip", "not an object"]
+            if form == "positional":
+                a = [cfg.get("allow_custom", False), cfg.get("interoperability", False), cfg.get("version")]
+                return ok(fn(data, [], *a) if obs else fn(data, *a), d)
+            return ok(fn(data, **k), d)
+        return guard(f, d), own
 
     if name == "workbench.parse":
         k = kw(cfg, ("allow_custom", "interoperability", "version"))
@@ -338,8 +363,14 @@ def run_entry(name, cfg, d):
     def payload():
         if wrap == "bundle":
             return {"type": "bundle", "id": BUNDLE_ID, "objects": [d]}
+        if wrap == "wbundle":           # a sink that parses the bundle as a whole
+            return bundle_of(d)
+        if wrap == "wbundle1":
+            return bundle_of(d, v1=True)
         if wrap == "list":
             return [d]
+        if wrap == "str":
+            return json.dumps(d)
         return d
 
     ck = kw(cfg, ("allow_custom",))
@@ -358,7 +389,10 @@ def run_entry(name, cfg, d):
 
         def f():
             s = C(**ck)
-            s.add(payload(), **vk)
+            if form == "positional":
+                s.add(payload(), v)
+            else:
+                s.add(payload(), **vk)
             if C is MemorySink:
                 return mem_saved(s, d)
             return single(s.get(oid), d)
@@ -383,11 +417,11 @@ def run_entry(name, cfg, d):
         def f():
             root = fresh_dir()
             write_fs(d, root, bundled=(wrap == "bundlefile"), flat=(wrap == "flatfile"))
-            s = C(root, **ck)
+            s = C(os.path.relpath(root) if form == "relpath" else root, **ck)
             if m == "query":
-                r = s.query([Filter("id", "=", oid)], **vk)
+                r = s.query([Filter("id", "=", oid)], v) if form == "positional" else s.query([Filter("id", "=", oid)], **vk)
             else:
-                r = getattr(s, m)(oid, **vk)
+                r = getattr(s, m)(oid, v) if form == "positional" else getattr(s, m)(oid, **vk)
             return single(r, d)
         return guard(f, d), ["parse", own_allow(cfg, C.__init__, split=True), False]
     if name in ("filesystem.FileSystemSink.add", "filesystem.FileSystemStore.add"):
@@ -395,8 +429,11 @@ def run_entry(name, cfg, d):
 
         def f():
             root = fresh_dir()
-            s = C(root, **ck)
-            s.add(payload(), **vk)
+            s = C(os.path.relpath(root) if form == "relpath" else root, **ck)
+            if form == "positional":
+                s.add(payload(), v)
+            else:
+                s.add(payload(), **vk)
             return read_sink_dir(root, d)
         return guard(f, d), ["parse", own_allow(cfg, C.__init__, split=False), False]
     return ["undriven", name], ["parse", False, False]
@@ -407,9 +444,9 @@ def run_direct(fn, ac, io_, v, d):
     return guard(lambda: ok(f(d, allow_custom=ac, interoperability=io_, version=v), d), d)
 
 
-def run_direct_bundle(ac, io_, v, d):
+def run_direct_bundle(ac, io_, v, d, v1=False):
     """what reading d out of a bundle file must amount to: parse the bundle, take its first member"""
-    return guard(lambda: ok(stix2.parse(bundle_of(d), allow_custom=ac, interoperability=io_, version=v)["objects"][0], d), d)
+    return guard(lambda: ok(stix2.parse(bundle_of(d, v1), allow_custom=ac, interoperability=io_, version=v)["objects"][0], d), d)
 
 
 # ---------------------------------------------------------------------------
@@ -436,8 +473,9 @@ def op_probe(c):
     t0 = time.perf_counter()
     dirs = [run_direct(fn, ac, io_, v, d) for fn, ac, io_, v in c.get("direct", [])]
     bdirs = [run_direct_bundle(ac, io_, v, d) for ac, io_, v in c.get("direct_bundle", [])]
+    bdirs1 = [run_direct_bundle(ac, io_, v, d, True) for ac, io_, v in c.get("direct_bundle1", [])]
     tm["direct"] = time.perf_counter() - t0
-    return {"entries": ents, "own": owns, "direct": dirs, "direct_bundle": bdirs, "t": tm}
+    return {"entries": ents, "own": owns, "direct": dirs, "direct_bundle": bdirs, "direct_bundle1": bdirs1, "t": tm}
 
 
 def show_detect(r):
@@ -592,9 +630,15 @@ def op_order(c):
         return json.loads(t)
     seen, fresh = c["seen"], c["fresh"]            # same content, two different ids of the same kind
     ids = c["ids"]
-    prime = run_direct("parse", c["ac"], False, c["first"], c["prime"])
-    after, _ = run_entry(c["entry"], {"version": c["second"], "allow_custom": c["ac"]}, seen)
-    ref, _ = run_entry(c["entry"], {"version": c["second"], "allow_custom": c["ac"]}, fresh)
+    p1 = c.get("first_flags") or {"allow_custom": c["ac"], "interoperability": False}
+    p2 = dict(c.get("second_flags") or {"allow_custom": c["ac"]}, version=c["second"])
+    if p2.get("version") is None:
+        del p2["version"]
+    prime = run_direct("parse", bool(p1.get("allow_custom")), bool(p1.get("interoperability")), c["first"], c["prime"])
+    if c.get("twice"):
+        prime = run_direct("parse", bool(p1.get("allow_custom")), bool(p1.get("interoperability")), c["first"], c["prime"])
+    after, _ = run_entry(c["entry"], p2, seen)
+    ref, _ = run_entry(c["entry"], p2, fresh)
     return {"prime": mask(prime, ids), "after": mask(after, ids), "fresh": mask(ref, ids)}
 
 
@@ -687,7 +731,31 @@ def op_collide(c):
     return {"text": text, "before": before, "after": back(), "after_named_20": back(version="2.0")}
 
 
-OPS = {"collide": op_collide, "mixed": op_mixed, "order": op_order, "registry": op_registry, "probe": op_probe, "detect": op_detect, "pick": op_pick,
+def op_idpos(c):
+    """the same UUID text as an object's own id and as a reference held by an object of the same spec version"""
+    from stix2.properties import IDProperty, ReferenceProperty
+
+    def verdict(f):
+        try:
+            f()
+            return "ok"
+        except ValueError as e:
+            return "invalid" if str(e).startswith("not a valid STIX identifier") else "other:" + str(e)[:40]
+        except Exception as e:  # noqa: BLE001
+            return "exc:" + type(e).__name__
+    v = c["value"]
+    out = {"id": verdict(lambda: IDProperty("identity", spec_version=c["spec_version"]).clean(v, False, c["interop"])),
+           "ref": verdict(lambda: ReferenceProperty(valid_types="identity", spec_version=c["spec_version"]).clean(v, False, c["interop"]))}
+    if c.get("object"):
+        d, key = c["object"], c["key"]
+        own = run_direct("parse", True, c["interop"], c["spec_version"], dict(d, id=d["id"].split("--", 1)[0] + "--" + v.split("--", 1)[1]))
+        held = run_direct("parse", True, c["interop"], c["spec_version"], dict(d, **{key: v if key != "object_marking_refs" else [v]}))
+        out["own_id"] = own[:4]
+        out["held_ref"] = held[:4]
+    return out
+
+
+OPS = {"idpos": op_idpos, "collide": op_collide, "mixed": op_mixed, "order": op_order, "registry": op_registry, "probe": op_probe, "detect": op_detect, "pick": op_pick,
        "idcheck": op_idcheck, "own": op_own, "bundle": op_bundle}
 
 try:
